@@ -54,13 +54,20 @@ impl Prop for C04 {
         let model = case.to_rooc();
         let mut labels = vec![];
         let mut any_ok = false;
+        let mut fails: Vec<(String, String)> = vec![];
+        let internal_names = case.vars.iter().any(|v| {
+            ["$sl_", "$su_", "$a_", "$p", "$m"].iter().any(|p| v.0.starts_with(p))
+        });
         for w in ALL {
             match solve(w, &model) {
                 Ans::Ok(sol) => {
                     any_ok = true;
                     labels.push(format!("{}:Ok", w.name()));
-                    if let Err((sig, detail)) = check_solution(case, w.name(), &sol, 1e-6) {
-                        return Outcome::fail(sig, detail);
+                    if let Err((mut sig, detail)) = check_solution(case, w.name(), &sol, 1e-6) {
+                        if internal_names && sig.ends_with(":assignment-names") {
+                            sig.push_str(":user-variable-with-solver-internal-prefix");
+                        }
+                        fails.push((sig, detail));
                     }
                 }
                 Ans::Infeasible => labels.push(format!("{}:Infeasible", w.name())),
@@ -75,9 +82,6 @@ impl Prop for C04 {
                 .rows
                 .iter()
                 .any(|r| r.coef.iter().filter(|c| **c != 0.0).count() >= 2);
-        Outcome::Pass {
-            nontrivial: any_ok && rich,
-            labels,
-        }
+        Outcome::from_failures(fails, any_ok && rich, labels)
     }
 }
